@@ -158,6 +158,26 @@ func expandC14(t *testing.T, seed uint64, tier string) []*core.Plan {
 		return core.Item{K: "wpub", P: 1 + r.Intn(2), A: r.Intn(3), S: r.PickS("t/1", "t/2", "t/1"), D: tag}
 	}
 	n := r.Range(4, 24)
+	if class == 3 && r.Chance(1, 2) {
+		// slow consumer: a hostile clean-session subscriber stops reading, its
+		// socket buffer and session queue are small; witness traffic fills the
+		// queue until a publish has to wait for room; then the hostile client
+		// goes away and everything must recover
+		p.SetKnob("slow", 1)
+		p.SetKnob("queue", r.Pick(2, 4, 8))
+		p.Items = append(p.Items, core.Item{K: "hslow", P: 1})
+		k := r.Range(6, 30)
+		for i := 0; i < k; i++ {
+			it := wpub()
+			it.A = r.Pick(0, 0, 1)
+			p.Items = append(p.Items, it)
+		}
+		p.Items = append(p.Items, core.Item{K: "hgone", P: 1, A: r.Intn(3)})
+		for i := 0; i < 4; i++ {
+			p.Items = append(p.Items, wpub())
+		}
+		return []*core.Plan{p}
+	}
 	for i := 0; i < n; i++ {
 		switch {
 		case class == 2 && i == n/2:
@@ -213,7 +233,11 @@ func runC14(t *testing.T, p *core.Plan) *core.Result {
 	cfg.ReadLimit = 8192
 	cfg.KillTimeout = time.Second
 	cfg.TokenTimeout = 2 * time.Second
+	if q := p.Knob("queue", 0); q > 0 {
+		cfg.QueueSize = q
+	}
 	class := p.Knob("class", 0)
+	slow := p.Knob("slow", 0) == 1
 	sites := []string{"", "Authenticate", "Setup", "Restore", "Subscribe", "Unsubscribe", "Publish", "Dequeue", "Terminate"}
 	var w *World
 	ptxt := core.Bubble(t, p.Seed, p.Yield, func() {
@@ -227,9 +251,14 @@ func runC14(t *testing.T, p *core.Plan) *core.Result {
 			pr.Send(c)
 			s := packet.NewSubscribe()
 			s.ID = pr.NextID()
-			if i == 1 {
+			switch {
+			case slow && i == 1:
+				// tiny queues: a witness must not fill its own queue (MemoryBackend
+				// answers that with ErrQueueFull by design), so nobody receives its own messages
+				s.Subscriptions = []packet.Subscription{{Topic: "u/#", QOS: 1}}
+			case i == 1:
 				s.Subscriptions = []packet.Subscription{{Topic: "#", QOS: 1}}
-			} else {
+			default:
 				s.Subscriptions = []packet.Subscription{{Topic: "t/#", QOS: 2}}
 			}
 			pr.Send(s)
@@ -272,6 +301,44 @@ func runC14(t *testing.T, p *core.Plan) *core.Result {
 					raw, _ := hex.DecodeString("101300044d5154540406000a00026878000000017a")
 					pr.SendRaw(raw, "connect with zero-length will topic")
 				}
+			case "hslow":
+				pr := w.NewPeer("slow")
+				pr.AckMode = 2
+				pr.Link.B2A.Cap = 96
+				hostile[it.P] = pr
+				hostiles = append(hostiles, pr)
+				c := packet.NewConnect()
+				c.ClientID, c.CleanSession, c.KeepAlive = "slow", true, 10
+				pr.Send(c)
+				sp := packet.NewSubscribe()
+				sp.ID = 1
+				sp.Subscriptions = []packet.Subscription{{Topic: "t/#", QOS: 0}}
+				pr.Send(sp)
+				w.Settle()
+				pr.Stalled = true // from now on it reads nothing
+				res.Count("slow_consumers", 1)
+			case "hgone":
+				if pr := hostile[it.P]; pr != nil {
+					stuck := 0
+					for _, st := range core.Stacks() {
+						if strings.Contains(st, "MemoryBackend).Publish") {
+							stuck++
+						}
+					}
+					if stuck > 0 {
+						res.Count("publishes_waiting_for_slow_consumer", 1)
+					}
+					switch it.A {
+					case 0:
+						pr.Drop()
+					case 1:
+						pr.CloseClean()
+					default:
+						w.Advance(20 * time.Second) // its keep-alive (10 s) expires
+						pr.Drop()
+					}
+					w.Settle()
+				}
 			case "h":
 				pr := hostile[it.P]
 				if pr == nil {
@@ -286,13 +353,21 @@ func runC14(t *testing.T, p *core.Plan) *core.Result {
 				if pr.EOF {
 					break
 				}
+				topic := it.S
+				if slow && it.P == 2 {
+					topic = "u" + topic[1:] // w2 publishes towards w1 only
+				}
 				pb := packet.NewPublish()
-				pb.Message = packet.Message{Topic: it.S, QOS: packet.QOS(it.A), Payload: MsgPayload(it.D, 0)}
+				size := 0
+				if slow {
+					size = 900 // fills the slow consumer's 4 KiB write buffer after a few messages
+				}
+				pb.Message = packet.Message{Topic: topic, QOS: packet.QOS(it.A), Payload: MsgPayload(it.D, size)}
 				if it.A > 0 {
 					pb.ID = pr.NextID()
 				}
 				pr.Send(pb)
-				wmsgs = append(wmsgs, wmsg{it.D, it.A, it.S, it.P})
+				wmsgs = append(wmsgs, wmsg{it.D, it.A, topic, it.P})
 			case "adv":
 				w.Advance(time.Duration(it.A) * time.Millisecond)
 			case "bclose":
@@ -303,7 +378,7 @@ func runC14(t *testing.T, p *core.Plan) *core.Result {
 				_ = w.Server.Close()
 				go w.Engine.Close()
 			}
-			if class == 2 || w.Sched.Chance(1, 2) {
+			if !slow && (class == 2 || w.Sched.Chance(1, 2)) {
 				w.Nudge(1 + w.Sched.Intn(3))
 			} else {
 				w.Settle()
@@ -346,8 +421,12 @@ func runC14(t *testing.T, p *core.Plan) *core.Result {
 							n++
 						}
 					}
-					if n != 1 {
-						res.Violate("C14", "C14.witness-delivery", fmt.Sprintf("got%d", n), fmt.Sprintf("witness w%d received message #%d (published by w%d on %s, QoS %d) %d times, expected once", i, m.tag, m.by, m.topic, m.qos, n))
+					want := 1
+					if slow && i == m.by {
+						want = 0 // in the slow-consumer class nobody subscribes to its own topics
+					}
+					if n != want {
+						res.Violate("C14", "C14.witness-delivery", fmt.Sprintf("got%d", n), fmt.Sprintf("witness w%d received message #%d (published by w%d on %s, QoS %d) %d times, expected %d", i, m.tag, m.by, m.topic, m.qos, n, want))
 					}
 				}
 			}
